@@ -3,23 +3,28 @@
   stale snapshot (state machine of Model/TransformState.lean). Only property theorems and
   non-vacuity examples live here; helper lemmas are in Deepali/Proofs/TransformState*.lean.
 
-  OBLIGATIONS: C09_reachable_wf C09_call_is_current C09_call_is_current_history
-    C09_disp_after_replace C09_disp_after_replace_refuted C09_linked_follows_source
-    C07_shared_params_partial C07_shared_params_refuted
+  OBLIGATIONS: C09_reachable_wf C09_reachable_alloc C09_call_is_current C09_call_is_current_history
+    C09_call_is_current_composite C09_call_is_current_composite_history
+    C09_disp_after_replace C09_linked_follows_source
+    C07_shared_params C07_inverse_succeeds
 
-  (`C07_shared_params_*` — the state-machine clause of C07 — live in Props/C07State.lean, which
-  this file imports so that the C09 check audits them too.)
+  (`C07_*` — the state-machine clause of C07 — live in Props/C07State.lean, which this file imports
+  so that the C09 check audits them too.)
 
-  Partial / not proved here:
-  * `C09_disp_after_replace_Statement` (every class) is REFUTED by the code as it stands
-    (finding F-09a: `BSplineTransform.grid_` with callable/linked params never clears the buffers);
-    `C09_disp_after_replace` proves it with that case excluded.
+  History: before the repairs 1ce28a8 (B-spline `grid_` clears the buffers), 3110eb9 (`__copy__`
+  copies `_parameters`), 20bab42 (`link_` with Parameter-held params) the clause
+  `disp_after_replace` was refuted for B-spline transforms with callable params (F-09a) and
+  `C07_shared_params` for (Parameter, link=True) (F-07). The model follows the repaired code; both
+  are now proved without exception.
+
+  Not proved here:
   * `C09_regrid_preserves_world_Statement` (re-gridding preserves the world deformation) is a
     statement about the dense-field / B-spline layers (C10, C14), not about this state machine,
     which *assumes* it (a re-gridded tensor keeps its content version). It is kept as a labelled
     `def` and covered by the oracle `regrid_world` only.
 -/
 import Deepali.Proofs.TransformStateCurrent
+import Deepali.Proofs.TransformStateComposite
 import Deepali.Props.C07State
 
 set_option linter.unusedSectionVars false
@@ -51,6 +56,43 @@ theorem C09_call_is_current_history (ops : List Op) (id : Nat) (o : Obj)
       = (runOuts World.empty ops).2 ++ [outOfCurrent (current (run World.empty ops) id)] := by
   rw [runOuts_append, C09_call_is_current (C09_reachable_wf ops) id o ho hleaf]
 
+/-- second invariant of every reachable world: every tensor an object refers to (params slot,
+    `_parameters` entry, buffers `p`, `u`, `v`) has been allocated — so evaluating one transform
+    (which may allocate a prediction) never disturbs what another one holds. -/
+theorem C09_reachable_alloc (ops : List Op) : CA (run World.empty ops) :=
+  CA_run CA_empty ops
+
+/-- `transform(x)` on a COMPOSITE (Sequential / MultiLevel): the pre-hook updates the members in
+    order, `forward` reads each member's buffer; every member is observed with exactly what it
+    holds at the moment of the call (`currents` = `current` of each member, first failure wins).
+    Hypotheses: the members are distinct non-composite transforms and no member is linked to
+    another member of the same composite (I-10: such a member would read what the other member
+    evaluated *during* this very call). -/
+theorem C09_call_is_current_composite {w : World} (hw : WF w) (hca : CA w) (id : Nat) (o : Obj)
+    (ho : w.objs id = some o) (hcomp : o.cls.isComposite = true) (hnd : o.members.Nodup)
+    (hleaf : ∀ m ∈ o.members, ∀ om, w.objs m = some om → om.cls.isComposite = false)
+    (hind : ∀ m ∈ o.members, ∀ om s, w.objs m = some om → w.lookup om = .obj s → s ∉ o.members) :
+    (step w (.call id)).2 = outOfCurrents (currents w o.members) :=
+  call_composite_current hw hca ho hcomp hnd hleaf hind
+
+/-- … after EVERY history. -/
+theorem C09_call_is_current_composite_history (ops : List Op) (id : Nat) (o : Obj)
+    (ho : (run World.empty ops).objs id = some o) (hcomp : o.cls.isComposite = true) (hnd : o.members.Nodup)
+    (hleaf : ∀ m ∈ o.members, ∀ om, (run World.empty ops).objs m = some om → om.cls.isComposite = false)
+    (hind : ∀ m ∈ o.members, ∀ om s, (run World.empty ops).objs m = some om →
+      (run World.empty ops).lookup om = .obj s → s ∉ o.members) :
+    (runOuts World.empty (ops ++ [.call id])).2
+      = (runOuts World.empty ops).2 ++ [outOfCurrents (currents (run World.empty ops) o.members)] := by
+  rw [runOuts_append, C09_call_is_current_composite (C09_reachable_wf ops) (C09_reachable_alloc ops) id o ho hcomp
+    hnd hleaf hind]
+
+/-- non-vacuity (composite): a Sequential of an SVF (Parameter) and an FFD with callable params;
+    in-place edit and re-conditioning between two calls — the second call observes both changes. -/
+example : (runOuts World.empty
+    [.mk (.svf false) .param 3 0, .mk .ffd (.fn 1) 0 0, .mkcomp .seq [0, 1] 0, .call 2,
+     .inplace 0 7, .condition_ 2 4, .call 2]).2.getLast? = some (.obs [⟨.lit 7, 0, false⟩, ⟨.pred 1 4, 0, false⟩]) := by
+  decide
+
 /-- non-vacuity: a concrete history (construct, evaluate, in-place edit, replace data, re-grid)
     after which the call observes version 9 on grid 1 — not the snapshot taken earlier. -/
 example : (runOuts World.empty
@@ -67,17 +109,11 @@ inductive Replaces (w : World) (id : Nat) (o : Obj) : Op → Prop
   | condition_ (c : Nat) : Replaces w id o (.condition_ id c)
   | reset : w.lookup o ≠ .none → Replaces w id o (.reset id)
 
-/-- full clause: `disp()` right after a successful replacing operation observes the new state. -/
-def C09_disp_after_replace_Statement : Prop :=
-  ∀ (w : World), WF w → ∀ (id : Nat) (o : Obj), w.objs id = some o → o.cls.isComposite = false →
-    ∀ op, Replaces w id o op → (step w op).2 = .ok →
-      (step (step w op).1 (.disp id)).2 = outOfCurrent (current (step w op).1 id)
-
-/-- proved part: every class and params kind, except `grid_` of a B-spline transform whose params
-    are not a tensor (F-09a). Buffers were cleared, so `disp` recomputes from what is held. -/
+/-- `disp()` right after a successful replacing operation observes the new state — every class
+    (dense, B-spline) and every params kind: the buffers were cleared, so `disp` recomputes from
+    what is held. -/
 theorem C09_disp_after_replace {w : World} (hw : WF w) (id : Nat) (o : Obj) (ho : w.objs id = some o)
     (hleaf : o.cls.isComposite = false) (op : Op) (hr : Replaces w id o op)
-    (hb : ∀ g, op = .grid_ id g → o.cls.isBSpline = true → (w.lookup o).isTensor = true)
     (hok : (step w op).2 = .ok) :
     (step (step w op).1 (.disp id)).2 = outOfCurrent (current (step w op).1 id) := by
   have hw' := WF_step hw op
@@ -94,7 +130,7 @@ theorem C09_disp_after_replace {w : World} (hw : WF w) (id : Nat) (o : Obj) (ho 
       | mk w' e =>
         cases e with
         | some e => simp [hs] at hok
-        | none => simp only [hs]; exact Cleared.of_gridSet ho hleaf hg (hb g rfl) hs
+        | none => simp only [hs]; exact Cleared.of_gridSet ho hleaf hg hs
     | condition_ c =>
       simp only [step, ho]
       exact Cleared.of_condSet ho c
@@ -106,14 +142,10 @@ theorem C09_disp_after_replace {w : World} (hw : WF w) (id : Nat) (o : Obj) (ho 
   obtain ⟨o1, ho1, hu1, hc1⟩ := hcl
   exact disp_leaf_current_of_cleared hw' ho1 (by rw [hc1]; exact hleaf) hu1
 
-/-- the full clause is violated by the code as it stands: an FFD with callable params, evaluated
-    on grid 0, then `grid_(1)`: `disp()` still returns the buffer computed on grid 0. -/
-theorem C09_disp_after_replace_refuted : ¬ C09_disp_after_replace_Statement := by
-  intro h
-  have hw := C09_reachable_wf [.mk .ffd (.fn 1) 0 0, .call 0]
-  have := h _ hw 0 ⟨.ffd, 0, .dict (.fn 1), some 1, some (.snap ⟨.pred 1 0, 0, false⟩), none, 0, 0, false, []⟩
-    (by decide) (by decide) (.grid_ 0 1) (.grid_ 1 (by decide)) (by decide)
-  revert this
+/-- non-vacuity for the former F-09a case: an FFD with callable params, evaluated on grid 0, then
+    `grid_(1)`: `disp()` now recomputes on grid 1. -/
+example : (runOuts World.empty [.mk .ffd (.fn 1) 0 0, .call 0, .grid_ 0 1, .disp 0]).2.getLast?
+    = some (.obs [⟨.pred 1 0, 1, false⟩]) := by
   decide
 
 /-- non-vacuity of `C09_disp_after_replace`: SVF with Parameter params, stale buffer from an
